@@ -33,7 +33,9 @@ MANIFEST = dict(
          'declared open; aliases likewise), `api_closed` (every (namespace, name) mentioned by a member / alias / route '
          'type through List / Map / Nullable, by a parent link or an enumerated-subtype link is a data type resp. alias '
          'the Api holds in that namespace), `api_acyclic` (no type is its own ancestor; no alias is reached from its own '
-         'target through aliases / List / Map / Nullable). The model is tied to the code by suite comp.compile: spec texts '
+         'target through aliases / List / Map / Nullable), `compile_order_independent_partial` (two accepted inputs with '
+         'the same declarations per namespace - other files, other order - give every (namespace, name) the same type '
+         'and alias). The model is tied to the code by suite comp.compile: spec texts '
          '(generated models, one-violation injections of harness/inject.py, one hand-written seed per modelled error site, '
          'text mutants) are parsed by the REAL parser, the partial ASTs - what IRGenerator is constructed with - are '
          'reduced to the model`s input and compiled by the model; the same texts go through the real specs_to_ir; accepted: '
@@ -61,9 +63,11 @@ MANIFEST = dict(
          'are outside its input (counted, skipped). The arguments of the built-in types are C01`s model '
          '(FeParams.instantiate), used as given by both `compile` and `denote`; `ns.List(T)` reads its arguments in `ns` in '
          'both (the code re-binds the environment; the language reference is silent). The alias-cycle search is modelled '
-         'without Python`s visited set and the recursions run on explicit fuel (population: number of type declarations + '
-         '1); running out is the explicit error `outOfFuel`, never a verdict - that it does not occur is observed by the '
-         'correspondence suite (a model answer `outOfFuel` / `internal` is a disagreement), not proved. Error kinds are '
+         'without Python`s visited set and the recursions run on explicit fuel; running out is an explicit error, never a '
+         'verdict: for the depth-first population (`outOfFuel`, fuel = number of type declarations + 1) '
+         '`populate_fuel_sufficient` proves it does not occur; for the walks along alias chains, ancestors and imports '
+         '(`fuelAlias` / `fuelAncestors` / `fuelImports`) and the impossible states (`internal`) it is observed by the '
+         'correspondence suite (a model answer of that kind is a disagreement), not proved. Error kinds are '
          'compared, never messages; `Namespace .. is not imported` / `.. is not a namespace` are also raised by unmodelled '
          'annotation sites and are not judged when the model disagrees. compile_error_iff (a decidable Legal) and order '
          'independence of acceptance are not proved; order independence of the RESULT follows from compile_eq_denote only '
